@@ -21,7 +21,7 @@ PLAN = {
     "quick": {"cases": 1920, "hashseeds": 3, "shards": 5, "timeout": 420, "min_nontrivial": 800},
     "thorough": {"cases": 9600, "hashseeds": 8, "shards": 2, "timeout": 3000, "min_nontrivial": 4000},
 }
-RULE = ("case idx%8: 0 -> EM case, 1-2 -> fit_update case, 3-7 -> fit case. World = random DAG (templates of "
+RULE = ("case idx%8: 0 -> EM case, 1-2 -> fit_update case, 3-6 -> fit case, 7 -> object-reuse sequence. World = random DAG (templates of "
         "gen.rand_dag_edges: ER, chain, collider, fork, family, two parts, isolated node; string node names whose "
         "sorted order differs from insertion order) with a random ground-truth BN (zeros / deterministic columns "
         "=> sparse data, unseen parent configurations); 5-300 rows sampled ancestrally; columns int64/int32/int8 "
@@ -34,10 +34,21 @@ RULE = ("case idx%8: 0 -> EM case, 1-2 -> fit_update case, 3-7 -> fit case. Worl
         "or by fit on a first chunk; 1-2 successive updates, n_prev None or given; row/column shuffled variants. "
         "EM case: 1-4 observed columns (<= 60 rows) + 0-2 latent nodes (card 1-3, as parents / mediators / "
         "children), seed fixed, max_iter 1-6 (8 thorough), init_cpds (ground truth, random positive, subset) in "
-        "half the cases, routes direct / model.fit / DAG.fit. non-trivial: >= 2 columns and >= 1 edge (fit, "
+        "half the cases, routes direct / model.fit / DAG.fit. Sequence case: ONE estimator object answering 4-8 "
+        "different estimate_cpd / get_parameters calls (nodes, priors, hyper-parameters, weighted flag vary; returned "
+        "CPDs are overwritten by the checker between calls), ONE BayesianNetwork fitted / fit_update'd 3-5 times on "
+        "different row ranges, priors and column orders, ONE ExpectationMaximization object asked 2-3 times with "
+        "different latent_card / seed / max_iter / init_cpds; every answer judged against the oracle of THAT call. "
+        "Boundary values: 1-3 row data, single-state columns, state '' and multi-digit ints, state_names={}, weights "
+        "0 / 1e-9 / 1e6 / non-integer mixed in one column, `_weight` column present but weighted=False, ess and "
+        "pseudo counts 1e-6 / 1e6 / non-integer / integer-typed / 0 and 0.0 (only when every parent configuration is "
+        "observed), n_prev_samples 0 / 0.0 (same condition) / 1 / 2.5 / 1e-6 / 1e6, EM seed 0. non-trivial: >= 2 columns and >= 1 edge (fit, "
         "update); >= 1 latent and >= 1 recorded iteration (EM). distinct by digest of the whole spec")
 ASSUMPTIONS = [
-    "counts are taken by a Python loop over the generated rows; float64 comparison at 1e-9 per named assignment",
+    "counts are taken by a Python loop over the generated rows; float64 comparison per named assignment, purely "
+    "relative (rtol 1e-9) because weights and pseudo counts span 1e-9..1e6",
+    "a zero prior (ess, pseudo count or n_prev_samples equal to 0) is only used when every parent configuration is "
+    "observed; otherwise the posterior is 0/0 and the statement promises nothing",
     "undeclared state names are the sorted distinct values of the column (pgmpy documentation)",
     "an explicit Dirichlet table is laid out like the returned CPD: rows = states of the node in declared order, "
     "columns = row-major configurations of the sorted parents (documented layout of pseudo_counts)",
@@ -414,6 +425,88 @@ def gen_em(rng, tier):
     return spec
 
 
+def gen_seq(rng, tier):
+    """Object reuse: ONE estimator object serving several different calls, ONE model fitted / fit_update'd
+    repeatedly, ONE ExpectationMaximization object asked for parameters several times."""
+    kind = rng.choice(["est", "est", "model", "model", "em"])
+    if kind == "em":
+        return gen_seq_em(rng, tier)
+    n = rng.choice([2, 3, 3, 4, 5])
+    w = gen_world(rng, n, [1, 2, 2, 2, 3, 3, 4])
+    n_rows = min(150, max(4, gen_rows_count(rng, tier)))
+    idx = sample_rows(rng, w, n_rows)
+    data = {v: [w["T"][v][i] for i in idx[v]] for v in w["nodes"]}
+    spec = dict(w, mode="seq", seq=kind, obs=list(w["nodes"]), latents=[], data=data, n_rows=n_rows,
+                declared=gen_declared(rng, w, w["nodes"], full=(kind == "model")),
+                weights=gen_weights(rng, n_rows, p=0.8))
+    S = eff_states(spec)
+    spec["perm_nodes"] = _shuf(rng, w["nodes"])
+    spec["perm_edges"] = _shuf(rng, w["edges"])
+    has_w = spec["weights"] is not None
+    if kind == "est":
+        spec["est"] = rng.choice(["mle", "bayes", "bayes"])
+        ops = []
+        for _ in range(rng.randint(4, 7)):
+            wt = has_w and rng.random() < 0.5
+            prior = {"type": "mle"} if spec["est"] == "mle" else \
+                gen_prior(rng, spec, S, bayes_only=True, allow_zero=all_configs_seen(spec, S, range(n_rows), wt))
+            op = {"op": "cpd" if rng.random() < 0.6 else "params", "node": rng.choice(w["nodes"]), "prior": prior,
+                  "weighted": wt, "scribble": rng.random() < 0.5}
+            ops.append(op)
+            if rng.random() < 0.25:
+                ops.append(dict(op, scribble=False))          # the same question again, right after
+        spec["ops"] = ops
+    else:
+        steps = []
+        for k in range(rng.randint(3, 5)):
+            lo = rng.randrange(0, n_rows - 1)
+            hi = rng.randint(lo + 1, n_rows)
+            if k == 0 or rng.random() < 0.55:
+                wt = has_w and rng.random() < 0.5
+                sub = dict(spec)
+                prior = gen_prior(rng, sub, S, allow_zero=all_configs_seen(spec, S, range(lo, hi), wt))
+                steps.append({"op": "fit", "rows": [lo, hi], "prior": prior, "weighted": wt,
+                              "cols": _shuf(rng, w["nodes"])})
+            else:
+                steps.append({"op": "update", "rows": [lo, hi], "n_prev": rng.choice([None, 1, 7, 2.5, 1e6, 1e-6]),
+                              "cols": _shuf(rng, w["nodes"])})
+        spec["steps"] = steps
+    return spec
+
+
+def gen_seq_em(rng, tier):
+    while True:
+        spec = gen_em(rng, tier)
+        if spec["latents"] and len(spec["obs"]) >= 2:
+            break
+    spec["mode"], spec["seq"], spec["route"] = "seq", "em", "direct"
+    S = eff_states(spec)
+    par = gen.parents_of(spec["nodes"], [tuple(e) for e in spec["edges"]])
+    lats = spec["latents"]
+    involved = [v for v in spec["nodes"] if v in lats or any(p in lats for p in par[v])]
+    calls = [{"latent_card": spec["latent_card"], "max_iter": spec["max_iter"], "seed": spec["seed"],
+              "atol": spec["atol"], "init": spec["init"], "init_mode": spec["init_mode"]}]
+    for _ in range(rng.randint(1, 2)):
+        lc = {L: rng.choice([1, 2, 2, 3]) for L in lats}
+        Sx = dict(S)
+        Sx.update({L: list(range(lc[L])) for L in lats})
+        init = {}
+        if rng.random() < 0.4:
+            for v in rng.sample(involved, rng.randint(1, len(involved))):
+                pa = _shuf(rng, par[v])
+                q = 1
+                for p in pa:
+                    q *= len(Sx[p])
+                init[v] = {"parents": pa, "table": gen.rand_cpt(rng, len(Sx[v]), q, zeros=False)}
+        same = rng.random() < 0.2           # the identical question again must give the identical kind of answer
+        calls.append(dict(calls[0]) if same else
+                     {"latent_card": None if all(c == 2 for c in lc.values()) and rng.random() < 0.5 else lc,
+                      "max_iter": rng.randint(1, 6), "seed": rng.choice([0, rng.randrange(1000)]),
+                      "atol": rng.choice([1e-8, 1e-12]), "init": init, "init_mode": "random" if init else "none"})
+    spec["calls"] = calls
+    return spec
+
+
 def gen_case(seed, idx, tier):
     rng = gen.rng_for("C06", seed, idx)
     m = idx % 8
@@ -421,6 +514,8 @@ def gen_case(seed, idx, tier):
         return gen_em(rng, tier)
     if m in (1, 2):
         return gen_update(rng, tier)
+    if m == 7:
+        return gen_seq(rng, tier)
     return gen_fit(rng, tier)
 
 
@@ -1024,11 +1119,16 @@ def run_em(spec, ctx):
         return ctx.violation(exc_key(r), f"{label} raised {r!r}", **detail)
     if len(spec["obs"]) == 1:
         ctx.feature("em:single-column")
+    judge_em(spec, ctx, r, spy, model, S, lat_states, label, detail)
 
+
+def judge_em(spec, ctx, r, spy, model, S, lat_states, label, detail, xkey=""):
+    """Judge one finished EM run: `r` = returned CPD list, `spy` = recorded per-iteration CPD sets."""
+    lats = spec["latents"]
     if spy.errors:
         return ctx.violation("c06:malformed-result", f"{label}: cannot read per-iteration CPDs: {spy.errors[0]}", **detail)
     trace = spy.trace
-    ctx.nontrivial = bool(lats) and len(trace) >= 1
+    ctx.nontrivial = ctx.nontrivial or (bool(lats) and len(trace) >= 1)
     ctx.expect(1 <= len(trace) <= spec["max_iter"], "c06:em-iteration-count",
                f"{label}: {len(trace)} iterations recorded for max_iter={spec['max_iter']}", **detail)
 
@@ -1109,8 +1209,164 @@ def run_em(spec, ctx):
                           f"(iteration {k + 1}); whole trace {[round(x, 6) for x in lls]}", **detail)
             break
     if lls:
-        ctx.xcell["em_final_loglik"] = float(lls[-1])
-        ctx.xcell["em_iterations"] = len(trace)
+        ctx.xcell["em_final_loglik" + xkey] = float(lls[-1])
+        ctx.xcell["em_iterations" + xkey] = len(trace)
+
+
+# ------------------------------------------------------------------ object reuse / call sequences
+def scribble(cpds):
+    """Overwrite the values of returned CPDs: a later answer must not alias an earlier one."""
+    import numpy as np
+    for c in cpds:
+        try:
+            if isinstance(c.values, np.ndarray):
+                c.values[...] = 0.123
+        except Exception:
+            pass
+
+
+def run_seq_est(spec, ctx):
+    from pgmpy.estimators import BayesianEstimator, MaximumLikelihoodEstimator
+    S = eff_states(spec)
+    rows = list(range(spec["n_rows"]))
+    bayes = spec["est"] == "bayes"
+    Est = BayesianEstimator if bayes else MaximumLikelihoodEstimator
+    declared = spec["declared"]
+    sn_kw = {"state_names": {v: list(s) for v, s in declared.items()}} if declared is not None else {}
+    spa = sorted_parents(spec)
+    iso = isolated_nodes(spec)
+    ctx.nontrivial = len(spec["edges"]) >= 1 and len(spec["ops"]) >= 2
+    ctx.feature("seq:estimator-" + spec["est"])
+    df = make_frame(spec, spec["nodes"], rows, True)
+    est = ctx.call(Est, make_model(spec, spec["perm_nodes"], spec["perm_edges"]), df, **sn_kw)
+    if ctx.failed(est):
+        return ctx.violation(exc_key(est), f"seq: {Est.__name__} constructor raised {est!r}")
+    for k, op in enumerate(spec["ops"]):
+        sp = dict(spec, prior=op["prior"])
+        wt = op["weighted"]
+        expect, _ = expected_fit(sp, S, rows, wt)
+        label = f"seq call {k} on one {Est.__name__}: {op['op']} prior={op['prior']['type']} weighted={wt}"
+        detail = dict(ops=[(o["op"], o["prior"]["type"], o["weighted"]) for o in spec["ops"][:k + 1]], edges=spec["edges"])
+        if op["op"] == "cpd":
+            v = op["node"]
+            r = ctx.call(est.estimate_cpd, v, **cpd_kwargs(sp, v, wt))
+            if ctx.failed(r):
+                key = K_ISO_BE if (bayes and v in iso and r.type == "NetworkXError") else exc_key(r)
+                ctx.violation(key, f"{label}: estimate_cpd({v!r}) raised {r!r}", **detail)
+                continue
+            d = compare_node(ctx, r, v, spa[v], expect[v], label + f" estimate_cpd({v!r})")
+            if d:
+                ctx.violation("c06:wrong-estimate", d, **detail)
+            else:
+                ctx.ok()
+            got = [r]
+        else:
+            r = ctx.call(est.get_parameters, n_jobs=1, **fit_kwargs(sp, wt))
+            if ctx.failed(r):
+                ctx.violation(exc_key(r), f"{label}: get_parameters raised {r!r}", **detail)
+                continue
+            by = collect_cpds(ctx, r, label)
+            judge_cpds(ctx, spec, by, expect, label, K_ISO_BE if bayes else None, detail=detail)
+            got = list(by.values())
+        if op["scribble"]:
+            scribble(got)
+            ctx.feature("seq:result-overwritten")
+
+
+def run_seq_model(spec, ctx):
+    from pgmpy.estimators import BayesianEstimator, MaximumLikelihoodEstimator
+    S = eff_states(spec)
+    spa = sorted_parents(spec)
+    sn = {v: list(s) for v, s in spec["declared"].items()}
+    ctx.nontrivial = len(spec["edges"]) >= 1
+    model = make_model(spec, spec["perm_nodes"], spec["perm_edges"])
+    hist = []
+    for k, st in enumerate(spec["steps"]):
+        rows = list(range(st["rows"][0], st["rows"][1]))
+        hist.append(st["op"] if st["op"] == "update" else "fit:" + st["prior"]["type"])
+        detail = dict(history=list(hist), rows=st["rows"], edges=spec["edges"])
+        if st["op"] == "fit":
+            sp = dict(spec, prior=st["prior"])
+            wt = st["weighted"]
+            expect, _ = expected_fit(sp, S, rows, wt)
+            bayes = st["prior"]["type"] != "mle"
+            label = f"seq step {k} on one model: fit prior={st['prior']['type']} weighted={wt}"
+            args = dict(fit_kwargs(sp, wt), state_names={v: list(s) for v, s in sn.items()})
+            if bayes:
+                args["estimator"] = BayesianEstimator
+            elif k % 2:
+                args["estimator"] = MaximumLikelihoodEstimator
+            r = ctx.call(model.fit, make_frame(spec, st["cols"], rows, True), n_jobs=1, **args)
+            if ctx.failed(r):
+                ctx.violation(exc_key(r), f"{label} raised {r!r}", **detail)
+                if not model.get_cpds():
+                    return
+                continue
+            ctx.feature("seq:model-fit")
+            by = collect_cpds(ctx, list(model.get_cpds()), label)
+            attributed, _ = judge_cpds(ctx, spec, by, expect, label, K_ISO_BE if bayes else None, detail=detail)
+            judge_check_model(ctx, model, label, attributed, K_ISO_BE)
+            if attributed:
+                return
+        else:
+            try:
+                old_named = {v: named_of(model.get_cpds(v)) for v in spec["nodes"]}
+            except Exception:
+                return              # an earlier step already failed and was reported
+            n_prev = len(rows) if st["n_prev"] is None else st["n_prev"]
+            expect = expected_update(spec, S, rows, old_named, n_prev)
+            label = f"seq step {k} on one model: fit_update n_prev={st['n_prev']}"
+            kw = {} if st["n_prev"] is None else {"n_prev_samples": st["n_prev"]}
+            r = ctx.call(model.fit_update, make_frame(spec, st["cols"], rows, False), n_jobs=1, **kw)
+            if ctx.failed(r):
+                ctx.violation(exc_key(r), f"{label} raised {r!r}", **detail)
+                continue
+            ctx.feature("seq:model-update")
+            by = collect_cpds(ctx, list(model.get_cpds()), label)
+            judge_cpds(ctx, spec, by, expect, label, None, generic="c06:wrong-update", detail=detail)
+            judge_check_model(ctx, model, label, set(), None)
+
+
+def run_seq_em(spec, ctx):
+    from pgmpy.estimators import ExpectationMaximization as EM
+    S = eff_states(spec)
+    lats = spec["latents"]
+    df = make_frame(spec, spec["perm_cols"], list(range(spec["n_rows"])), False)
+    model = make_model(spec, spec["perm_nodes"], spec["perm_edges"])
+    sn_kw = {"state_names": {v: list(s) for v, s in spec["declared"].items()}} if spec["declared"] is not None else {}
+    est = ctx.call(EM, model, df, **sn_kw)
+    if ctx.failed(est):
+        return ctx.violation(exc_key(est), f"seq: ExpectationMaximization constructor raised {est!r}")
+    ctx.feature("seq:em-object-reused")
+    for k, c in enumerate(spec["calls"]):
+        sp = dict(spec, **c)
+        lc = c["latent_card"] or {L: 2 for L in lats}
+        lat_states = {L: list(range(lc[L])) for L in lats}
+        Sx = dict(S)
+        Sx.update(lat_states)
+        kw = dict(max_iter=c["max_iter"], seed=c["seed"], atol=c["atol"])
+        if c["latent_card"] is not None:
+            kw["latent_card"] = dict(c["latent_card"])
+        if c["init"]:
+            kw["init_cpds"] = {v: make_cpd(v, t["parents"], t["table"], Sx) for v, t in c["init"].items()}
+        label = f"seq call {k} on one EM object: latent_card={c['latent_card']} max_iter={c['max_iter']} seed={c['seed']}"
+        detail = dict(edges=spec["edges"], latents=lats, calls=[(x["latent_card"], x["max_iter"], x["seed"],
+                                                                 sorted(x["init"])) for x in spec["calls"][:k + 1]])
+        with EMSpy() as spy:
+            r = ctx.call(est.get_parameters, n_jobs=1, show_progress=False, **kw)
+        if ctx.failed(r):
+            ctx.violation(exc_key(r), f"{label} raised {r!r}", **detail)
+            continue
+        judge_em(sp, ctx, r, spy, model, S, lat_states, label, detail, xkey=f"#{k}")
+
+
+def run_seq(spec, ctx):
+    if spec["seq"] == "est":
+        run_seq_est(spec, ctx)
+    elif spec["seq"] == "model":
+        run_seq_model(spec, ctx)
+    else:
+        run_seq_em(spec, ctx)
 
 
 def run_case(spec, ctx):
@@ -1118,5 +1374,7 @@ def run_case(spec, ctx):
         run_fit(spec, ctx)
     elif spec["mode"] == "update":
         run_update(spec, ctx)
+    elif spec["mode"] == "seq":
+        run_seq(spec, ctx)
     else:
         run_em(spec, ctx)
